@@ -7,6 +7,9 @@ R2  (lockset) the CAS, the == 0 test and the drain of the waiter list in add, an
     (the dequeuer takes the same mutex, so a record cannot be discarded while it is being woken); the drain happens only on the path where the
     value just produced is 0; an append to the waiter list happens only after re-reading the value in the same critical section.
 R3  the drain loop wakes every waiter (shape, shared with C02.R4).
+R4  "wait returns non-zero only once its deadline has passed": nsync_counter_wait goes through nsync_wait_n, which takes every non-zero result
+    of the timed semaphore wait for an expired deadline; that result is non-zero only where the kernel wait timed out and the re-read clock
+    agrees (= C12.R3, judged here for the counter's contract).
 Linearizability of the returned values over histories is not decided."""
 from .. import util, ir as IR, objmodel, wakeshape
 from ..bounds import _guards, _norm_cmp
@@ -120,6 +123,9 @@ def run(ctx, rep):
     if nd == 0:
         raise AnalysisBroken('C10.R2: no wake-up found in nsync_counter_add')
     wakeshape.check_wake_loops(mod, rep, 'C10.R3', only_files=('counter.c',))
+    from . import C12
+    rep.rule('C10.R4', 'the timed semaphore wait under nsync_counter_wait reports non-zero only for a kernel timeout confirmed by the clock')
+    C12.check_timeout_guards(mod, ctx.probe, rep, 'C10.R4')
     rep.floor('C10.R1', 3)
     rep.floor('C10.R2', 8)
     rep.floor('C10.R3', 1)
